@@ -7,10 +7,12 @@ import Qryn.Proofs.MetricOrder
 Model: `LogQL.planMetric` (tied byte-for-byte to the real planner's SQL text by the `text` stream, its step
 list to the real planner chain by the `chain` stream), `Sql.evalSelA`/`evalBodyA`/`evalAgg` (semantics of the
 aggregating SQL subset — a documented model of ClickHouse), `LogQL.evalMetric` (the direct reading, no SQL),
-`LogQL.postProcess`/`fixWindow` (the Go post-processors, tied by the `post` stream). The whole-plan equality
-`evalSelA (planMetric c q) = evalMetric c q` is *searched* (the `sem` stream evaluates both sides on generated
-databases); the theorems below prove it stage by stage: for every stage the SELECT the planner emits, over
-arbitrary input rows, computes what the direct reading defines.
+`LogQL.postProcess`/`fixWindow` (the Go post-processors, tied by the `post` stream); `LogQL.planMetricX` /
+`LogQL.evalMetricX` for the labelled path (selectors with `| json` / `| regexp` / `| drop`, `quantile_over_time`; `textx`,
+`semx` streams). The whole-plan equality is PROVED for three decidable classes (`plan_metric_correct`,
+`plan_metric_correct_unwrap`, `plan_metric_correct_ext`; section "the whole plan" and after); the first sections prove it
+stage by stage: for every stage the SELECT the planner emits, over arbitrary input rows, computes what the direct reading
+defines. The semantic streams label every generated case with the class predicates of these theorems.
 
 Numbers: Float64 values are exact rationals (`Rat`), UInt64/Int64 values integers; no theorem depends on IEEE
 rounding. Range durations are positive (any unit: since the `fix:` of the rate divisor nothing depends on whole
@@ -377,12 +379,11 @@ theorem plan_metric_correct_agg (o : Oracles) (c : MCtx) (hn : c.namesOk) (d : L
 
 /-- **plan_metric_correct on the samples path, every query shape.** `q` is any metric query whose range aggregation is
     rate / count_over_time / bytes_rate / bytes_over_time and does not take the metrics_15s shortcut: the range
-    aggregation alone, under sum/min/max/avg/count with a grouping clause, under topk/bottomk (of either), with a
-    comparison after any of them; the step may be smaller or larger than the range (`StepFixPlanner` planned or not).
-    Hypotheses: at most 63 matchers, the range positive, (formerly:) a vector aggregation has a
-    grouping clause (`aggOk`; without one the plan keeps one series per stream — finding
-    C08/agg-without-grouping-keeps-streams) and is not stddev/stdvar. Then the generated statement, under the
-    documented SQL semantics, returns exactly the matrix of the direct reading. -/
+    aggregation alone, under sum/min/max/avg/count/stddev/stdvar with or without a grouping clause, under topk/bottomk (of
+    either), with a comparison after any of them; the step may be smaller or larger than the range (`StepFixPlanner` planned
+    or not). Hypotheses: at most 63 matchers, the range positive (`aggOk` is `True` since the `fix:` of ungrouped
+    aggregations; kept in the signature). Then the generated statement, under the documented SQL semantics, returns exactly
+    the matrix of the direct reading. -/
 theorem plan_metric_correct_samples_path (o : Oracles) (c : MCtx) (hn : c.namesOk) (d : LokiDb) (q : MetricQuery) (fn : RangeFn)
     (hk : q.rangeAgg.kind = .lra fn) (hs : takesShortcut q = false) (hok : aggOk q)
     (hm : q.rangeAgg.sel.matchers.length ≤ 63) (hd : 0 < q.rangeAgg.durNs) :
@@ -457,11 +458,11 @@ theorem plan_metric_correct_unwrap_sorted (o : Oracles) (c : MCtx) (hn : c.names
     (evalSelA o (d.toDbM c) (planMetric c q)).map normRow = evalMetric o c d q := by
   rw [planMetric_unwrap_supported o c hn d q hsup, sortedDb_of_sorted c.toCtx d hsorted]
 
-/-- the full statement of the property for *every* query of the modelled fragment and every table order (also
-    vector aggregations without grouping clause, and unwrapped range aggregations over a table that is not stored in
-    timestamp order). Not proved: `vector_agg_ungrouped_counterexample` refutes it for ungrouped aggregations (finding
-    C08/agg-without-grouping-keeps-streams); for unwrap it holds only after the final ORDER BY and for pairwise distinct
-    timestamps — `plan_metric_correct_unwrap` is the proved form, the `sem` stream searches this one. -/
+/-- the full statement of the property for *every* query of the plain fragment and every table order (also unwrapped range
+    aggregations over a table that is not stored in timestamp order). Not proved in this form: for unwrap the two sides
+    agree after the final ORDER BY when no two entries share a timestamp (`plan_metric_unwrap_any_row_order` is the proved
+    order-independence, `plan_metric_correct_unwrap` the proved equality); with timestamp ties first/last_over_time follow
+    the row order (`first_last_any_order_counterexample`, finding C08/first-last-tie-follows-row-order). -/
 def plan_metric_correct_full : Prop :=
   ∀ (o : Oracles) (c : MCtx) (d : LokiDb) (q : MetricQuery), c.namesOk → q.rangeAgg.sel.matchers.length ≤ 63 →
     0 < q.rangeAgg.durNs → ShortcutOk o d q →
@@ -616,6 +617,13 @@ example : (1000000 : Nat) ∣ 5000000000 := by decide
 example : takesShortcut (.range ⟨.lra .rate, ⟨[], []⟩, 60000000000, none, none, none⟩) = true := by decide
 example : takesShortcut (.range ⟨.lra .rate, ⟨[], []⟩, 20000000000, none, none, none⟩) = false := by decide
 example : takesShortcut (.range ⟨.lra .rate, ⟨[], [.line ⟨.notContains, [], none⟩]⟩, 60000000000, none, none, none⟩) = false := by decide
+
+example : Reordered ⟨[], [], [⟨1, 1, [], 1⟩, ⟨1, 2, [], 1⟩]⟩ ⟨[], [], [⟨1, 2, [], 1⟩, ⟨1, 1, [], 1⟩]⟩ := by
+  refine ⟨rfl, rfl, by decide, by decide, ?_, ?_⟩
+  · intro s; simp [or_comm]
+  · intro s hs s' hs' h
+    simp only [List.mem_cons, List.not_mem_nil, or_false] at hs hs'
+    rcases hs with rfl | rfl <;> rcases hs' with rfl | rfl <;> simp_all
 
 -- the plan-level class is inhabited: sum by (a) (rate({…}[1m])) > 1 under topk, shortcut and not
 example : supported (.topk ⟨true, 2, .agg ⟨.sum, some ⟨true, ["a"]⟩, ⟨.lra .rate, ⟨[], []⟩, 60000000000, none, none, none⟩, none,
